@@ -125,10 +125,10 @@ func refParse(b []byte) []refItem {
 }
 
 type c08Inv struct {
-	start   string
-	toks    []string
-	readAll bool
-	postEOF []error // results of reads attempted after the first io.EOF
+	start    string
+	toks     []string
+	readAll  bool
+	postEOF  []error // results of reads attempted after the first io.EOF
 	firstErr error
 }
 
